@@ -164,7 +164,7 @@ func TestReplay(t *testing.T) { kit.RunReplay(t) }
 func TestConcat(t *testing.T) {
 	specAs = specA()
 	kit.R.Note("spec_examples_usable_as_A", len(specAs))
-	kit.Rapid(t, "concat", 250000, 3000000, func(t *rapid.T) {
+	kit.Rapid(t, "concat", 250000, 12000000, func(t *rapid.T) {
 		cfg := rapid.SampledFrom(configs).Draw(t, "cfg")
 		var a []byte
 		class := "closeddoc"
@@ -210,7 +210,7 @@ func variant(t *rapid.T, label string) string {
 var labelAlphabet = []string{"zq", "ZQ", "zqa", "zq b", "zqß", "zqσ", "zqK", "zq1", "zq é", "zq\\]", "zq*x*", "zqǆ"}
 
 func TestDefs(t *testing.T) {
-	kit.Rapid(t, "defs", 200000, 2000000, func(t *rapid.T) {
+	kit.Rapid(t, "defs", 200000, 8000000, func(t *rapid.T) {
 		cfg := rapid.SampledFrom(configs).Draw(t, "cfg")
 		nl := rapid.IntRange(1, 4).Draw(t, "nlabels")
 		labels := make([]string, nl)
